@@ -163,6 +163,16 @@ class SimRaw(io.RawIOBase):
         self._append = append
         self.name = path
 
+    def close(self):
+        if not self.closed:
+            super().close()
+            f = self.fs.close_fault
+            if f is not None and (self._w or not f.get('writers_only')):
+                self.fs.close_fault = None
+                self.fs.fired('close_error')
+                raise OSError(f.get('errno', errno.EIO),
+                              'simulated failure on close', self.path)
+
     def readable(self):
         return self._r
 
@@ -284,13 +294,16 @@ class SimFS:
         self.fault_counts = {}
 
     def reset_op(self, bufsize=None, read_fault=None, write_fault=None,
-                 short_seed=None):
+                 short_seed=None, open_fault=None, close_fault=None):
         """Arm the faults for the next operation and zero its counters."""
         self.close_leaked()
         if bufsize is not None:
             self.bufsize = bufsize
         self.read_fault = read_fault
         self.write_fault = write_fault
+        self.open_fault = open_fault
+        self.close_fault = close_fault
+        self.opens = 0
         self.short_rng = random.Random(short_seed) \
             if short_seed is not None else None
         self.raw_reads = 0
@@ -322,6 +335,7 @@ class SimFS:
     FD_BASE = 1_000_000
 
     def os_open(self, path, flags, mode=0o777):
+        self._open_fault(path)
         exists = path in self.files
         if flags & os.O_CREAT:
             if exists and flags & os.O_EXCL:
@@ -356,8 +370,17 @@ class SimFS:
     def get(self, path):
         return bytes(self.files[path])
 
+    def _open_fault(self, path):
+        self.opens += 1
+        f = self.open_fault
+        if f is not None and self.opens == f.get('at', 1):
+            self.fired('open_error')
+            raise OSError(f.get('errno', errno.EMFILE),
+                          'simulated failure to open', path)
+
     def open(self, path, mode='r', buffering=-1, encoding=None, errors=None,
              newline=None, closefd=True, opener=None):
+        self._open_fault(path)
         binary = 'b' in mode
         m = mode.replace('b', '').replace('t', '')
         plus = '+' in m
